@@ -19,7 +19,8 @@ class CrashNow(BaseException):
 
 
 class Interposer:
-    def __init__(self, module, root):
+    def __init__(self, module, root, parent=None):
+        self.parent = parent     # a second module of the same process: its mutations are counted by the parent
         self.m = module
         self.root = os.path.realpath(root)
         self.log = []            # (op, relative path)
@@ -33,6 +34,8 @@ class Interposer:
         return os.path.relpath(p, self.root) if p.startswith(self.root) else p
 
     def _mut(self, op, path):
+        if self.parent is not None:
+            return self.parent._mut(op, path)
         if self.crash_at is not None and len(self.log) == self.crash_at:
             self.crashed = True
             raise CrashNow(f"killed before mutation {len(self.log)}: {op} {self._rel(path)}")
